@@ -29,8 +29,20 @@ def set_context(proposals):
         client = walk.consumer.client('Context')
         handles = _patient_handles(p)
         states = []
+        loc_handles = sorted(s.Handle for s in p.mdib.context_states.descriptor_handle.get(A.LOC, []))
         for what, assoc in proposals:
-            if what == 'new':
+            if what == 'locnew':
+                # a state of the location context descriptor proposed through the same operation: the handler works on
+                # the descriptor of each proposed state
+                st = client.mk_proposed_context_object(A.LOC)
+                st.LocationDetail.Bed = 'B' + assoc
+                st.Identification.append(A._pm().InstanceIdentifier(root='sdc.ctxt.loc.detail', extension_string='///' + 'B' + assoc))
+            elif what in ('locupd0', 'locupdlast'):
+                if not loc_handles:
+                    raise A.Disabled(what)
+                st = client.mk_proposed_context_object(A.LOC, loc_handles[0 if what == 'locupd0' else -1])
+                st.LocationDetail.Room = 'R' + assoc
+            elif what == 'new':
                 st = client.mk_proposed_context_object(A.PAT)
                 st.CoreData.Givenname = 'N' + assoc
             elif what in ('upd0', 'upd1'):
@@ -56,6 +68,10 @@ for what in ('new', 'upd0', 'upd1'):
     for assoc in ('No', 'Pre', 'Assoc', 'Dis'):
         EVENTS[f'set({what}:{assoc})'] = set_context([(what, assoc)])
 EVENTS['set(stale:Assoc)'] = set_context([('stale', 'Assoc')])
+for what in ('locnew', 'locupd0', 'locupdlast'):
+    for assoc in ('Assoc', 'Dis', 'No'):
+        EVENTS[f'set({what}:{assoc})'] = set_context([(what, assoc)])
+EVENTS['set(locnew:Assoc,new:Assoc)'] = set_context([('locnew', 'Assoc'), ('new', 'Assoc')])
 for a, b in (('new:Assoc', 'new:Assoc'), ('new:Assoc', 'upd0:Assoc'), ('new:Assoc', 'new:Pre'), ('upd0:Dis', 'new:Assoc'),
              ('upd0:Assoc', 'upd1:Assoc'), ('upd0:Assoc', 'upd1:Dis'), ('new:Dis', 'new:No')):
     EVENTS[f'set({a},{b})'] = set_context([tuple(a.split(':')), tuple(b.split(':'))])
@@ -224,6 +240,10 @@ def run(ctx):
     # depth 4 over the two small context sub-alphabets (order of states inside the table matters there)
     jobs += hist.sequences(['location(1)', 'location(2)', 'location-extra(Pre)', 'location-extra(No)'], 4)
     jobs += hist.sequences(['patient-new(A)', 'patient-new(B)', 'patient-entity-new(C)', 'patient-disassociate'], 4)
+    # set_location mixed with SetContextState requests for the location context (who is associated changes behind the back
+    # of the other interface)
+    loc_mix = ['location(1)', 'location(2)', 'set(locnew:Assoc)', 'set(locupd0:Assoc)', 'set(locupdlast:Dis)']
+    jobs += hist.sequences(loc_mix, 3 if ctx.quick else 4)
     ctx.note('histories', len(jobs))
     ctx.pmap(_work, ctx.rotate(jobs))
     from mcx.checks import c10_sched
